@@ -94,10 +94,17 @@ static DeserializationError deser(char fmt, JsonDocument& d, int rk, const strin
 static string num(long v) { return v < 0 ? string("-") : std::to_string(v); }
 
 // serialize through every destination kind; returns "" if all agree with `ref`, else the name of the first that differs
+// a stream buffer that cannot report or change its position (a socket, a pipe, a UART): tellp() is -1; bytes are delivered through overflow/xsputn only
+struct NoSeekBuf : std::streambuf {
+  string got;
+  int_type overflow(int_type c) override { if (c != traits_type::eof()) got += (char)c; return c; }
+  std::streamsize xsputn(const char* p, std::streamsize n) override { got.append(p, (size_t)n); return n; }
+};
 template <typename F1, typename F2>
 static string destCheck(const JsonDocument& d, const string& ref, size_t measured, F1 ser, F2 serBuf, bool nulRule) {
   (void)serBuf;
   if (measured != ref.size()) return "measure";
+  { NoSeekBuf nb; std::ostream os(&nb); size_t n = ser(d, os); if (nb.got != ref || n != ref.size() || !os.good()) return "ostream-without-position"; }
   { std::ostringstream os; size_t n = ser(d, os); if (os.str() != ref || n != ref.size()) return "ostream"; }
   // a stream with formatting state left over by the caller (width, fill, adjustment, flags): serialization is unformatted output
   { std::ostringstream os; os.width(9); os.fill('*'); os.setf(std::ios::left, std::ios::adjustfield); os.setf(std::ios::hex | std::ios::showbase | std::ios::uppercase);
